@@ -23,7 +23,7 @@ THEOREMS = [
 ]
 RULE = (
     "subset of the 14 customization levels for one field (2 unkeyed field levels + 4 keyed levels x 3 type keys), each level registers a marker function for both directions, "
-    "for one direction only (dict-valued strategy) or pass_through; entry points: mixin with a call dialect, codec with a default dialect; "
+    "for one direction only (dict-valued strategy) or pass_through; entry points: mixin with a call dialect, codec with a default dialect; shape: the field declared with its concrete type, or in a generic dataclass as Annotated[List[T], tag] with T bound to int by a subclass / the codec's type argument; "
     "non-trivial = at least two levels enabled; quick samples subsets, thorough enumerates all 2^14"
 )
 
@@ -99,7 +99,11 @@ def draw(rng, bits=None):
     return out
 
 
-def build_and_observe(levels, entry, idx):
+T10 = typing.TypeVar("T10")
+GEN_ANN = typing.Annotated[typing.List[T10], "k"]     # becomes ANN once T10 is bound to int
+
+
+def build_and_observe(levels, entry, idx, shape="plain"):
     """returns (ser_marker, de_marker): '<tag>' | 'builtin' | 'pass' | ('error', msg)"""
     from mashumaro import DataClassDictMixin, field_options, pass_through
     from mashumaro.codecs.basic import BasicDecoder, BasicEncoder
@@ -134,14 +138,31 @@ def build_and_observe(levels, entry, idx):
     def_dialect = type("DefD", (Dialect,), {"serialization_strategy": defd}) if (defd and entry == "codec") else None
     if entry == "mixin":
         cfg["code_generation_options"] = [ADD_DIALECT_SUPPORT]
-    ns = {"__annotations__": {"f": ANN}, "Config": type("Config", (BaseConfig,), cfg)}
+    ns = {"__annotations__": {"f": ANN if shape == "plain" else GEN_ANN}, "Config": type("Config", (BaseConfig,), cfg)}
     if md:
         ns["f"] = dataclasses.field(metadata=field_options(**md))
-    cls = type(f"C10_{idx}", (DataClassDictMixin,) if entry == "mixin" else (), ns)
+    bases = (DataClassDictMixin,) if entry == "mixin" else ()
+    if shape != "plain":
+        bases = (typing.Generic[T10],) + bases
+    import types as _types
+
+    cls = _types.new_class(f"C10_{idx}", bases, exec_body=lambda n: n.update(ns))
     cls.__module__ = __name__
     globals()[cls.__name__] = cls
     try:
         cls = dataclasses.dataclass(cls)
+        if shape == "generic":
+            # the type variable is bound to int: by a subclass (mixin) or by the codec's type argument
+            if entry == "mixin":
+                sub = _types.new_class(f"C10_{idx}_S", (cls[int],), exec_body=lambda n: n.update({"__annotations__": {}}))
+                sub.__module__ = __name__
+                globals()[sub.__name__] = sub
+                cls = dataclasses.dataclass(sub)
+                ctor = cls
+            else:
+                ctor, cls = cls, cls[int]
+        else:
+            ctor = cls
         value = [1, 2]
 
         def classify(x, orig):
@@ -152,30 +173,33 @@ def build_and_observe(levels, entry, idx):
             return "builtin"
 
         if entry == "mixin":
-            obj = cls(value)
+            obj = ctor(value)
             kw = {"dialect": call_dialect} if call_dialect else {}
             s = obj.to_dict(**kw)["f"]
             inp = [3, 4]
             d = cls.from_dict({"f": inp}, **kw).f
         else:
-            obj = cls(value)
+            obj = ctor(value)
             s = BasicEncoder(cls, default_dialect=def_dialect).encode(obj)["f"]
             inp = [3, 4]
             d = BasicDecoder(cls, default_dialect=def_dialect).decode({"f": inp}).f
         return classify(s, value), classify(d, inp)
     finally:
         globals().pop(f"C10_{idx}", None)
+        globals().pop(f"C10_{idx}_S", None)
 
 
 def run_batch(ctx, batch):
     lines, metas = [], []
-    for levels, entry in batch:
+    for item in batch:
+        levels, entry = item[0], item[1]
+        shape = item[2] if len(item) > 2 else "plain"
         eff = dict(levels)
         # a codec has no call dialect; the mixin path here has no default dialect
         for k in KEYS:
             eff.pop(f"{k}:callDialect" if entry == "codec" else f"{k}:defaultDialect", None)
         try:
-            real = build_and_observe(eff, entry, ctx.evaluations + len(metas))
+            real = build_and_observe(eff, entry, ctx.evaluations + len(metas), shape)
         except Exception as e:  # noqa
             real = ("error", f"{type(e).__name__}: {e}"[:200])
         keyed = {k: {s: model_reg(eff.get(f"{k}:{s}"), f"{k}:{s}") for s in SOURCES} for k in KEYS}
@@ -188,11 +212,11 @@ def run_batch(ctx, batch):
                 "keyed": keyed,
             }
         )
-        metas.append((eff, entry, real))
+        metas.append((eff, entry, real, shape))
     outs = ctx.model(lines)
-    for (eff, entry, real), m in zip(metas, outs or [None] * len(metas)):
-        case = {"levels": eff, "entry": entry}
-        ctx.count(case, len(eff) >= 2, kind=f"entry:{entry}")
+    for (eff, entry, real, shape), m in zip(metas, outs or [None] * len(metas)):
+        case = {"levels": eff, "entry": entry, "shape": shape}
+        ctx.count(case, len(eff) >= 2, kind=f"entry:{entry}:{shape}")
         ctx.bump(f"nlevels:{min(len(eff), 6)}")
         if real[0] == "error":
             ctx.violation(case, {"error": real[1]}, "class / codec builds and runs", "customized field failed", lambda f: False)
@@ -213,7 +237,7 @@ def run(ctx):
     rng = ctx.rng
     if ctx.tier == "quick":
         n = 2500
-        batch = [(draw(rng), rng.choice(["mixin", "mixin", "codec"])) for _ in range(n)]
+        batch = [(draw(rng), rng.choice(["mixin", "mixin", "codec"]), rng.choice(["plain", "plain", "generic"])) for _ in range(n)]
         for i in range(0, n, 500):
             if ctx.time_left() < 30:
                 break
@@ -230,7 +254,7 @@ def run(ctx):
             run_batch(ctx, allb[i : i + 1000])
         else:
             ctx.exhaustive = True
-        extra = [(draw(rng), rng.choice(["mixin", "codec"])) for _ in range(6000)]
+        extra = [(draw(rng), rng.choice(["mixin", "codec"]), rng.choice(["plain", "generic"])) for _ in range(6000)]
         for i in range(0, len(extra), 1000):
             if ctx.time_left() < 30:
                 break
@@ -239,5 +263,5 @@ def run(ctx):
 
 def replay(ctx, body):
     c = body["case"]
-    run_batch(ctx, [(c["levels"], c["entry"])])
+    run_batch(ctx, [(c["levels"], c["entry"], c.get("shape", "plain"))])
     return ctx.finish()
